@@ -717,6 +717,19 @@ static void huge_reject_case(const args_t *a, long idx, const variant_t *v, size
         n_bytes_cmp += mlen;
         if (nz) { snprintf(key, sizeof key, "plaintext-not-zeroed:%s:huge", v->name); emit_viol(key, "rejected %zu byte packet: %zu words of the plaintext buffer are not zero, first at offset %zu", mlen + 8, nz, first); }
     }
+    /* second forgery: a GENUINE 16-byte-body packet P||T at the start of the buffer, presented with a length that is
+     * larger by (mlen - 16) - a multiple of 2^32 in the thorough tier: a body length narrowed to 32 bits finds the tag
+     * where the short packet has it */
+    {
+        uint8_t small[16], *out = huge_map(mlen + 64);
+        size_t sl = 0;
+        fill_random(&r, small, 16);
+        memset(buf, 0, 64);
+        v->enc(buf, &sl, small, 16, ad, 2, n, k); ++n_enc;
+        rc = v->dec(out, &ml2, buf, (mlen - 16) + 24, ad, 2, n, k); ++n_dec; ++n_verdict_rej;
+        if (rc == 0) { snprintf(key, sizeof key, "accept-forged:%s:body-extended-by-2^32", v->name); emit_viol(key, "a genuine 24-byte packet followed by %zu further bytes was accepted as one packet", mlen - 16); }
+        munmap(out, mlen + 64);
+    }
     munmap(buf, mlen + 64);
 }
 
